@@ -239,7 +239,9 @@ def layout_variant(R, arr, variant=None):
     return arr
 
 
-def gen_spec(R, *, n_lf=None, hc=False, small=False, kinds=None, vrl=None, rows=None, with_index=None, fastpath=False):
+def gen_spec(R, *, n_lf=None, hc=False, small=False, kinds=None, vrl=None, rows=None, with_index=None, fastpath=False,
+             frames_plan=None):
+    # frames_plan: per frame of every logical file whether its first channel is an index (None / 'uniform' / ...)
     spec = {'sul': {'set_identifier': R.choice(['MAIN-STORAGE-UNIT', 'A', 'X' * 60, 'SET-1']) if hc else
                     R.choice(['MAIN-STORAGE-UNIT', 'A', 'X' * 60, 'some set id', '', ' led by a blank', 'ends in blanks  ']),
                     'sul_sequence_number': R.choice([1, 1, 2, 9999, 0, R.randrange(1, 9999)]),
@@ -257,6 +259,8 @@ def gen_spec(R, *, n_lf=None, hc=False, small=False, kinds=None, vrl=None, rows=
             lf['fh_route'] = 'late'
         objs = lf['objects']
         nframes = (R.choice([1, 1, 2]) if not small else 1) if not fastpath else 1
+        if frames_plan:
+            nframes = len(frames_plan)
         nrows = rows or R.choice([1, 2, 3, 5, 17, 17, 130] if not small else [1, 2, 3])      # 130: frame numbers beyond one UVARI byte
         plan = []
         n_origin = R.choice([1, 1, 2])
@@ -320,6 +324,8 @@ def gen_spec(R, *, n_lf=None, hc=False, small=False, kinds=None, vrl=None, rows=
                 idx_like = None
                 if c == 0:
                     idx_like = with_index if with_index is not None else R.choice([None, None, 'uniform'])
+                    if frames_plan:
+                        idx_like = frames_plan[f]
                     if hc and idx_like not in (None, 'uniform'):
                         idx_like = 'uniform'
                     if hc and (nrows if not isinstance(nrows, dict) else nrows[f]) < 2:
